@@ -14,6 +14,8 @@ for f in $(git diff --name-only --diff-filter=U); do
   case "$f" in
     MANIFEST.json|evidence/*|lean/Ccp.lean|lean/Ccp/Drv/All.lean|lean/Ccp/Gen/*|DESIGN.md|known_findings.json|harness/fingerprints.json)
       git checkout --ours -- "$f"; git add "$f"; echo "generated file $f: kept main's, regenerated below";;
+    notes/design_notes.json)
+      python3 /verif/notes/merge_notes.py wip-$id && git add "$f";;
   esac
 done
 if [ -n "$(git diff --name-only --diff-filter=U)" ]; then echo "CONFLICTS (resolve by hand, then git commit and rerun the rest of this script by hand):"; git diff --name-only --diff-filter=U; exit 1; fi
